@@ -407,3 +407,14 @@ Proof.
     repeat match type of Hch with (_ && _ = true) => apply andb_true_iff in Hch as [Hch ?] end.
     match goal with K : negb (mem C03.Model.COMMA ch) = true |- _ => apply negb_true_iff in K; exact K end.
 Qed.
+
+(* ------------------------------------------------------------------ *)
+(* "no password given" (the '' the commands pass to checkPassword) never authenticates, and an account without
+   password is never authenticated by password (repair of C02.F44: the first statement of IrcUser.checkPassword) *)
+Lemma no_password_given a : check_pw a (Some []) = Ok false.
+Proof. reflexivity. Qed.
+Lemma no_password_set a p : C16.Model.u_password (a_u a) = [] -> check_pw a p = Ok false.
+Proof.
+  intro H. unfold check_pw. destruct p as [p|]; [|reflexivity]. rewrite H. cbn [nonempty negb].
+  rewrite orb_true_r. reflexivity.
+Qed.
